@@ -22,3 +22,57 @@ fn c04_o4_can_evict_only_fully_tracked() {
     kani::cover!(can);
     std::mem::forget(header);
 }
+
+// @verif prop=C05,C04 obl=O3 tier=quick bounds="one memo of VFn (u32 output) in a one-slot memo table; all three origin kinds; symbolic value, verified_at, changed_at, durability"
+// @+ encodes="IngredientImpl::<VFn>::evict_value_from_memo_for, MemoTableWithTypesMut::map_memo, MemoHeader::can_evict_value, MemoTableWithTypes::insert, MemoTableWithTypes::get"
+/// C05-O3: evicting a memo discards only the value of a fully tracked memo; its dependency information (verified_at,
+/// changed_at, durability, origin) is kept, so it can be re-validated and recomputed on demand; untracked and
+/// assigned memos keep their value (it could not be reconstructed).
+#[kani::proof]
+#[kani::unwind(4)]
+#[kani::stub(real_catch_unwind, stub_catch_unwind)]
+fn c05_o3_evict_keeps_dependency_info() {
+    use crate::table::memo::{MemoEntryType, MemoTable, MemoTableTypes};
+    let mut types = MemoTableTypes::default();
+    let idx = MemoIngredientIndex::from_usize(0);
+    types.set(idx, MemoEntryType::of::<Memo<VFn>>());
+    // SAFETY: the table is only accessed with `types`.
+    let mut table = unsafe { MemoTable::new(&types) };
+    let shape = any_origin_shape();
+    let v: u32 = kani::any();
+    let verified: usize = kani::any();
+    let changed: usize = kani::any();
+    kani::assume(1 <= changed && changed <= verified && verified < REV_MAX);
+    let d = any_durability();
+    let memo = Memo::<VFn> {
+        header: header_of(verified, revisions_of(changed, d, origin_of(shape), true)),
+        value: Some(v),
+    };
+    let ptr = NonNull::from(Box::leak(Box::new(memo)));
+    // SAFETY: `types` is the table's types table.
+    assert!(unsafe { types.attach_memos(&table) }.insert(idx, ptr).is_none());
+    // SAFETY: as above; no shared references into the memo are live.
+    IngredientImpl::<VFn>::evict_value_from_memo_for(unsafe { types.attach_memos_mut(&mut table) }, idx);
+    // SAFETY: as above.
+    let got = unsafe { types.attach_memos(&table) }.get::<Memo<VFn>>(idx);
+    assert!(got == Some(ptr), "C05: eviction removed or replaced the memo (dependency information lost)");
+    // SAFETY: the memo is live.
+    let m = unsafe { ptr.as_ref() };
+    if shape == OriginShape::Derived {
+        assert!(m.value.is_none(), "C05: eviction left the value of a fully tracked memo in place");
+    } else {
+        assert!(m.value == Some(v), "C05/C04: eviction discarded a value that cannot be recomputed (untracked or specified)");
+    }
+    assert!(m.header.verified_at.load().as_usize() == verified, "C05: eviction changed verified_at");
+    assert!(m.header.revisions.changed_at.as_usize() == changed, "C05: eviction changed changed_at");
+    assert!(m.header.revisions.durability == d, "C05: eviction changed the durability");
+    match (shape, m.header.origin()) {
+        (OriginShape::Derived, QueryOriginRef::Derived(_)) => {}
+        (OriginShape::Untracked, QueryOriginRef::DerivedUntracked(_)) => {}
+        (OriginShape::Assigned, QueryOriginRef::Assigned(_)) => {}
+        _ => panic!("C05: eviction changed the origin"),
+    }
+    kani::cover!(shape == OriginShape::Derived);
+    kani::cover!(shape == OriginShape::Untracked);
+    std::mem::forget(table);
+}
